@@ -389,15 +389,29 @@ static int processAndInsertNode(KSI_TreeBuilder *builder, KSI_TreeNode *node) {
 		if (tmp != NULL) {
 			res = KSI_TreeNode_join(builder->ctx, builder->hsr, tmp, localRoot == NULL ? node : localRoot, &localRoot);
 			if (res != KSI_OK) goto cleanup;
+
+			/* The processor's node is now owned by the local root. */
+			tmp = NULL;
 		}
 	}
 
 	res = insertNode(builder, localRoot == NULL ? node : localRoot, 0);
 	if (res != KSI_OK) goto cleanup;
 
-	tmp = NULL;
+	/* The local root is now owned by the builder. */
+	localRoot = NULL;
 
 cleanup:
+
+	if (localRoot != NULL) {
+		/* The input node stays with the caller, release only what was built around it. */
+		if (node->parent != NULL) {
+			if (node->parent->leftChild == node) node->parent->leftChild = NULL;
+			if (node->parent->rightChild == node) node->parent->rightChild = NULL;
+			node->parent = NULL;
+		}
+		KSI_TreeNode_free(localRoot);
+	}
 
 	KSI_TreeNode_free(tmp);
 
